@@ -15,6 +15,7 @@ TABLE = {
     "c01_input_const_boolean.diff": ("contracts.c01", "_is_boolean_producer", None),
     "c01_chain_connective_swapped.diff": ("contracts.c01", "_try_fold_logical_chain", None),
     "c01_condvalue_semantic_type_first.diff": ("contracts.c01", "lower_output_spec_expr", "op <;"),
+    "c02_no_wire_separation_flag.diff": ("contracts.c02", "bundle_arithmetic", None),
     "c02_bundle_constant_inlined.diff": ("contracts.c20b", "_decide_materialization", None),
     "c03_data_also_to_hold_gate.diff": ("contracts.c03", "_setup_standard_write", None),
     "c03_hold_gate_ge.diff": ("contracts.c03", "_create_standard_memory", None),
